@@ -239,7 +239,33 @@ async def F15():
     return (src.closed != 1, f"tee: child 0 closed unstarted, child 1 exhausted: source closed {src.closed} times")
 
 
-ALL = [F1, F2, F3, F4, F5, F6, F7, F8, F9, F10, F11, F12, F13, F14, F15]
+async def F16():
+    import itertools
+    src = Ends([1])
+    async for _ in a.batched(src, 2):
+        pass
+
+    class SyncEnds:
+        def __init__(self, items):
+            self.items, self.ends = list(items), 0
+
+        def __iter__(self):
+            return self
+
+        def __next__(self):
+            if not self.items:
+                self.ends += 1
+                raise StopIteration
+            return self.items.pop(0)
+
+    ref = SyncEnds([1])
+    if hasattr(itertools, "batched"):
+        for _ in itertools.batched(ref, 2):
+            pass
+    return (src.ends != ref.ends, f"batched(<1 item>, 2): end-of-source detections asyncstdlib {src.ends}, itertools {ref.ends}")
+
+
+ALL = [F1, F2, F3, F4, F5, F6, F7, F8, F9, F10, F11, F12, F13, F14, F15, F16]
 
 
 def main():
